@@ -287,7 +287,7 @@ PARSER_RULE = ("parser stream: 14+ small emitted streams covering every subframe
 
 PROPS.update({
     "C16": {
-        "theorem_modules": ["FlacVerif.Theorems.C16crc"],
+        "theorem_modules": ["FlacVerif.Theorems.C16crc", "FlacVerif.Theorems.C16"],
         "streams": {"quick": [("parser", ["--cases", 14, "--burst-stride", 40, "--random", 1500])],
                     "thorough": [("parser", ["--cases", 40, "--burst-stride", 1, "--random", 200000])],
                     "search": [("parser", ["--cases", 30, "--burst-stride", 4, "--random", 20000])]},
@@ -325,5 +325,33 @@ PROPS.update({
         "trusted_base": ["tools/translate.py: struct shapes, serde attributes (container default, tag, per-field default fns) and Default impls are read from config.rs on every run",
                          "the toml 0.5 / serde text layer (text <-> value tree) is MODELLED, not verified: the model starts at serde's data model; the text layer is exercised by the direct round-trip oracle"],
         "assumptions": ["workers is None or non-zero (Option<NonZeroUsize>)", "TOML integers are non-negative and below 2^63 (see known finding K1)"],
+    },
+})
+
+HISTORY_RULE = ("history stream: corpus (F7: Tukey alpha 0.0, 1e-6, 0.4, 0.40001 on one thread) first; then random histories of 6..35 calls on ONE long-lived thread — stream-level encodes "
+                "(single-thread, frame-by-frame, multi-thread W=2,3), parse + re-serialise + decode, and the kernels that own thread-local scratch (Rice parameter search, fixed-predictor errors, "
+                "quantised-LPC errors, encode_subframe) — with block sizes jumping between 32 and 4096, 1/2/3/8 channels, all widths, and window parameters from {0, 1e-6, denormal, 0.4, "
+                "0.4+ulp, 0.40001, 0.4+2^-17, 1-ulp, 1, 0.5}; every call's result is compared with the same call made alone on a fresh thread; the window-cache fingerprint of 210 alpha "
+                "bit patterns is compared with the model's and checked for collisions. distinct = sequence of call kinds")
+
+PROPS.update({
+    "C10": {
+        "streams": {"quick": [("history", ["--cases", 60]), ("kernel", ["--cases", 120])],
+                    "thorough": [("history", ["--cases", 3000]), ("kernel", ["--cases", 1500])],
+                    "search": [("history", ["--cases", 600])]},
+        "diff_prefix": ["c10.", "mirror.search", "c01.diffs", "c01.lpcerr"], "oracle_fields": ["o_c10"], "rule": HISTORY_RULE + " || " + KERNEL_RULE,
+        "trusted_base": ["Model/Scratch.lean: hand model of every reusable!/reuse! site with the STALE buffer as an explicit argument (Vec::resize keeps the old prefix, SimdVec lanes past len, FrameBuf::resize keeps filled_size), tied to the code through the pure models it is proved equal to (diffs, computeError, search: kernel stream, called on one thread with varying sizes, i.e. with genuinely stale buffers) and through the window fingerprint comparison",
+                         "float window VALUES and the LPC estimator's float buffers are not modelled: only which (size, window) a cache entry was computed for, and that the cast/windowed/correlation buffers are fully overwritten"],
+        "assumptions": ["stable (fakesimd) build; the simd-nightly path of weighted_delay_prod_sum_impl splits by heap alignment (read only, noted in DESIGN.md)"],
+    },
+    "C15": {
+        "streams": {"quick": [("parser", ["--cases", 14, "--burst-stride", 64, "--random", 200]), ("stream", ["--cases", 150, "--max-samples", 5000]), ("comp", ["--cases", 100])],
+                    "thorough": [("parser", ["--cases", 40, "--burst-stride", 16, "--random", 2000]), ("stream", ["--cases", 4000, "--max-samples", 40000]), ("comp", ["--cases", 3000])],
+                    "search": [("stream", ["--cases", 1000, "--max-samples", 9000])]},
+        "diff_prefix": ["c15."], "oracle_fields": ["o_c15"], "class_of": default_class,
+        "rule": PARSER_RULE + " || " + STREAM_RULE + "; every emitted stream is parsed by the crate's own parser (consumes all input, verifies, re-serialises to the same bytes, decodes to the input) and by the Lean mirror, whose tree must equal the one the strict RFC decoder recovered || " + COMP_RULE,
+        "trusted_base": ["Model/RepoParser.lean: hand mirror of parser.rs/decode.rs (nom combinator semantics incl. alt order, bits() byte re-alignment, many_till), tied to the code mutant-by-mutant (C16) and on every emitted stream",
+                         "Model/Component.lean writer model (bits), tied byte-exactly to bitrepr.rs on every stream record"],
+        "assumptions": ["LPC order <= 24, widths <= 25 bits, quotients < 2^32, block size < 2^32 (limits of the repository's parser, all satisfied by the encoder's output)", "fixed-blocking headers as the encoder writes them (frame number < 2^32, start sample 0)"],
     },
 })
